@@ -5,10 +5,21 @@ import HmfVerif.Model.FunctionalIO
 import HmfVerif.Model.ExprIO
 import HmfVerif.Gen.ExprFits
 import HmfVerif.Spec.Fits
+import HmfVerif.Gen.ExprWdm
+import HmfVerif.Gen.ExprWdmAlter
+import HmfVerif.Gen.ExprFlow
+import HmfVerif.Gen.ExprMdef
+import HmfVerif.Gen.ExprTransfer
+import HmfVerif.Gen.ExprFilters
+import HmfVerif.Gen.ExprGrowth
+import HmfVerif.Spec.Wdm
 /-! Driver: one request per line on stdin, one canonical answer per line on stdout. -/
 
 def exprTables : List (String × List (String × Hmf.E)) :=
-  [("Fits", Hmf.Gen.Fits.table), ("SpecFits", Hmf.Spec.Fits.table)]
+  [("Fits", Hmf.Gen.Fits.table), ("SpecFits", Hmf.Spec.Fits.table),
+   ("Wdm", Hmf.Gen.Wdm.table), ("WdmAlter", Hmf.Gen.WdmAlter.table), ("Flow", Hmf.Gen.Flow.table), ("Mdef", Hmf.Gen.Mdef.table),
+   ("Transfer", Hmf.Gen.Transfer.table), ("Filters", Hmf.Gen.Filters.table), ("Growth", Hmf.Gen.Growth.table),
+   ("SpecWdm", Hmf.Spec.Wdm.table)]
 
 def lookupTerm (name : String) : Option Hmf.E :=
   match name.splitOn "/" with
